@@ -22,6 +22,7 @@ import (
 	"io"
 	"log"
 	"net"
+	"os"
 	"strings"
 	"sync"
 	"sync/atomic"
@@ -38,12 +39,30 @@ import (
 	"verif/harness/vh"
 )
 
-// ---- log capture --------------------------------------------------------------------------------
+// ---- observation points ---------------------------------------------------------------------------
+//
+// Nothing in the oracle is inferred from timing. The harness observes ground truth at four points and
+// is woken through c15Sig whenever one of them changes:
+//   * the std log (errors of the requester's send loop and of the responder's per-datagram goroutine),
+//   * the requester's UDP socket (c15Conn: how many datagrams it put on the wire, its local address),
+//   * the responder's UDP socket (c15Tap: source of every datagram read, destination of every
+//     datagram written),
+//   * the responder's callback (arguments, in order).
+// A case ends only when nothing of it can still be in flight (see c15XchgCheck), so that no late
+// effect of one case is ever attributed to the next one.
+
+var c15Sig = make(chan struct{}, 1)
+
+func c15Poke() {
+	select {
+	case c15Sig <- struct{}{}:
+	default:
+	}
+}
 
 type c15Log struct {
 	mu    sync.Mutex
 	lines []string
-	ev    chan string
 }
 
 func (l *c15Log) Write(b []byte) (int, error) {
@@ -51,10 +70,7 @@ func (l *c15Log) Write(b []byte) (int, error) {
 	l.mu.Lock()
 	l.lines = append(l.lines, s)
 	l.mu.Unlock()
-	select {
-	case l.ev <- s:
-	default:
-	}
+	c15Poke()
 	return len(b), nil
 }
 
@@ -62,13 +78,6 @@ func (l *c15Log) reset() {
 	l.mu.Lock()
 	l.lines = nil
 	l.mu.Unlock()
-	for {
-		select {
-		case <-l.ev:
-		default:
-			return
-		}
-	}
 }
 
 func (l *c15Log) snapshot() []string {
@@ -88,14 +97,70 @@ func c15Has(lines []string, prefixes ...string) string {
 	return ""
 }
 
-// log lines after which no response datagram will be sent for the current request
-var c15NoResponseLogs = []string{"send: ", "RemoveFormat err", "craftResponse err", "AddFormat err", "dnsRespToUDPResp err"}
+const c15RefuseText = "c15: callback refuses"
 
-// log lines that show the responder received a query but refused / failed to decode it
+// responder log lines after which no datagram is sent back for the query being handled
+var c15DecodeFailLogs = []string{"RemoveFormat err", "craftResponse err", "AddFormat err", "dnsRespToUDPResp err"}
+
+// responder log lines that show a query was received but refused / not decoded
 var c15RequestDecodeLogs = []string{"RemoveFormat err", "craftResponse err", "NXDOMAIN", "FORMERR", "NOTIMPL", "BADVERS", "cannot parse DNS query"}
 
-// log lines by which the responder rejects a response it cannot carry
+// responder log lines by which it rejects a response it cannot carry
 var c15ResponseRejectLogs = []string{"ERR: Response UDP payload length", "AddFormat err", "dnsRespToUDPResp err", "resp WireFormat"}
+
+// c15Tap wraps the responder's socket.
+type c15Tap struct {
+	net.PacketConn
+	mu  sync.Mutex
+	in  []string // source address of every datagram read
+	out []string // destination address of every datagram written
+}
+
+func (t *c15Tap) ReadFrom(p []byte) (int, net.Addr, error) {
+	n, a, err := t.PacketConn.ReadFrom(p)
+	if err == nil {
+		t.mu.Lock()
+		t.in = append(t.in, a.String())
+		t.mu.Unlock()
+		c15Poke()
+	}
+	return n, a, err
+}
+
+func (t *c15Tap) WriteTo(p []byte, a net.Addr) (int, error) {
+	// recorded before the datagram leaves, so that the record can never trail the effects of the
+	// datagram (the requester returning, the case ending, the next case starting)
+	t.mu.Lock()
+	t.out = append(t.out, a.String())
+	t.mu.Unlock()
+	c15Poke()
+	return t.PacketConn.WriteTo(p, a)
+}
+
+func (t *c15Tap) reset() {
+	t.mu.Lock()
+	t.in, t.out = nil, nil
+	t.mu.Unlock()
+}
+
+// count returns how many datagrams came from / went to addr, and how many came from elsewhere.
+func (t *c15Tap) count(addr string) (from, to, strays int) {
+	t.mu.Lock()
+	defer t.mu.Unlock()
+	for _, a := range t.in {
+		if addr != "" && a == addr {
+			from++
+		} else {
+			strays++
+		}
+	}
+	for _, a := range t.out {
+		if addr != "" && a == addr {
+			to++
+		}
+	}
+	return
+}
 
 // ---- fixtures -----------------------------------------------------------------------------------
 
@@ -103,8 +168,10 @@ type c15Server struct {
 	domain    string // what the responder is configured with
 	reqDomain string // what the requester is configured with (may differ in case / trailing dot)
 	r         *Responder
+	tap       *c15Tap
 	addr      string
 	pub       []byte
+	tainted   bool // an exchange on this server timed out: something of it may still be in flight, so it is not used again
 
 	mu     sync.Mutex
 	calls  [][]byte
@@ -115,18 +182,21 @@ type c15Server struct {
 func (s *c15Server) callback(b []byte) ([]byte, error) {
 	s.mu.Lock()
 	defer s.mu.Unlock()
+	defer c15Poke()
 	s.calls = append(s.calls, append([]byte{}, b...))
 	if s.retErr {
-		return nil, fmt.Errorf("c15: callback refuses")
+		return nil, fmt.Errorf(c15RefuseText)
 	}
 	return append([]byte{}, s.ret...), nil
 }
 
-// c15Conn wraps the requester's UDP socket so that the harness can end the requester's receive
-// loop: after Close, Read fails with io.EOF (not a net.Error), on which recvLoop returns.
+// c15Conn wraps the requester's (connected) UDP socket: it counts the datagrams written, and lets
+// the harness end the requester's receive loop: after Close, Read fails with io.EOF (not a
+// net.Error), on which recvLoop returns.
 type c15Conn struct {
 	net.Conn
 	closed atomic.Bool
+	writes atomic.Int32
 }
 
 func (c *c15Conn) Read(b []byte) (int, error) {
@@ -137,6 +207,12 @@ func (c *c15Conn) Read(b []byte) (int, error) {
 	return n, err
 }
 
+func (c *c15Conn) Write(b []byte) (int, error) {
+	c.writes.Add(1) // counted before the datagram leaves (see c15Tap.WriteTo)
+	c15Poke()
+	return c.Conn.Write(b)
+}
+
 func (c *c15Conn) Close() error {
 	c.closed.Store(true)
 	return c.Conn.Close()
@@ -144,8 +220,15 @@ func (c *c15Conn) Close() error {
 
 type c15Client struct {
 	req  *requester.Requester
-	conn *c15Conn
 	used bool
+	mu   sync.Mutex
+	conn *c15Conn // set when the requester dials (inside its first RequestAndRecv)
+}
+
+func (cl *c15Client) socket() *c15Conn {
+	cl.mu.Lock()
+	defer cl.mu.Unlock()
+	return cl.conn
 }
 
 type c15Env struct {
@@ -193,7 +276,7 @@ var (
 // RecvAndRespond has no way to stop — closing its socket makes it spin on the read error).
 func c15GetEnv() (*c15Env, error) {
 	c15EnvOnce.Do(func() {
-		e := &c15Env{logs: &c15Log{ev: make(chan string, 1024)}}
+		e := &c15Env{logs: &c15Log{}}
 		log.SetFlags(0)
 		log.SetOutput(e.logs)
 		for i, d := range c15Domains {
@@ -203,7 +286,9 @@ func c15GetEnv() (*c15Env, error) {
 				c15EnvErr = fmt.Errorf("NewDnsResponder(%q): %v", d[0], err)
 				return
 			}
-			s := &c15Server{domain: d[0], reqDomain: d[1], r: r, addr: r.transport.LocalAddr().String(), pub: encryption.PubkeyFromPrivkey(priv)}
+			tap := &c15Tap{PacketConn: r.transport}
+			r.transport = tap
+			s := &c15Server{domain: d[0], reqDomain: d[1], r: r, tap: tap, addr: tap.LocalAddr().String(), pub: encryption.PubkeyFromPrivkey(priv)}
 			go func() { _ = r.RecvAndRespond(s.callback) }()
 			e.servers = append(e.servers, s)
 			e.clients = append(e.clients, nil)
@@ -229,8 +314,11 @@ func (e *c15Env) client(i int) (*c15Client, error) {
 			if err != nil {
 				return nil, err
 			}
-			cl.conn = &c15Conn{Conn: c}
-			return cl.conn, nil
+			w := &c15Conn{Conn: c}
+			cl.mu.Lock()
+			cl.conn = w
+			cl.mu.Unlock()
+			return w, nil
 		},
 	})
 	if err != nil {
@@ -250,8 +338,8 @@ func (e *c15Env) drop(i int) {
 		// Requester.Close dereferences its transport, which is nil if dialling failed
 		c15h.Catch(func() { _ = cl.req.Close() })
 	}
-	if cl.conn != nil {
-		_ = cl.conn.Close()
+	if c := cl.socket(); c != nil {
+		_ = c.Close()
 	}
 	e.clients[i] = nil
 }
@@ -322,10 +410,39 @@ type c15XchgCase struct {
 	CbErr    bool   `json:"callback_error"` // the callback returns an error instead of a response
 }
 
-const c15XchgTimeout = 15 * time.Second
+const c15XchgTimeout = 20 * time.Second
 
 // c15History keeps the last few evaluated exchanges (diagnostics in violation messages).
 var c15History []string
+
+// c15Obs is what the observation points show for the current case.
+type c15Obs struct {
+	writes  int // datagrams the requester put on the wire
+	arrived int // datagrams the responder read from this requester's socket
+	strays  int // datagrams the responder read from anywhere else
+	sent    int // datagrams the responder wrote to this requester's socket
+	calls   [][]byte
+	lines   []string
+}
+
+func (o c15Obs) refused(c c15XchgCase) bool {
+	return c.CbErr && len(o.calls) >= 1 && c15Has(o.lines, "craftResponse err: "+c15RefuseText) != ""
+}
+
+func (o c15Obs) decodeFail() string {
+	for _, l := range o.lines {
+		if c15Has([]string{l}, c15DecodeFailLogs...) != "" && !strings.Contains(l, c15RefuseText) {
+			return l
+		}
+	}
+	return ""
+}
+
+// serverFinished: the responder has read this case's query and is done with it (answered it, or
+// logged why it will not).
+func (o c15Obs) serverFinished(c c15XchgCase) bool {
+	return o.arrived >= 1 && (o.sent >= 1 || o.refused(c) || o.decodeFail() != "")
+}
 
 func c15XchgCheck(t vh.Fataler, rec *vh.Rec, e *c15Env, c c15XchgCase) {
 	t.Helper()
@@ -334,6 +451,10 @@ func c15XchgCheck(t vh.Fataler, rec *vh.Rec, e *c15Env, c c15XchgCase) {
 	}
 	s := e.servers[c.Server]
 	c.Domain = s.reqDomain
+	if s.tainted {
+		rec.Case(false, vh.Digest(c), nil, "skipped:server-tainted-by-timeout")
+		return
+	}
 	cl, err := e.client(c.Server)
 	if err != nil {
 		t.Fatalf("harness problem: cannot create requester for %q: %v", s.reqDomain, err)
@@ -343,7 +464,26 @@ func c15XchgCheck(t vh.Fataler, rec *vh.Rec, e *c15Env, c c15XchgCase) {
 	s.mu.Lock()
 	s.calls, s.ret, s.retErr = nil, respP, c.CbErr
 	s.mu.Unlock()
+	s.tap.reset()
 	e.logs.reset()
+	writes0 := 0
+	if sock := cl.socket(); sock != nil {
+		writes0 = int(sock.writes.Load())
+	}
+	observe := func() c15Obs {
+		var o c15Obs
+		local := ""
+		if sock := cl.socket(); sock != nil {
+			o.writes = int(sock.writes.Load()) - writes0
+			local = sock.LocalAddr().String()
+		}
+		o.arrived, o.sent, o.strays = s.tap.count(local)
+		s.mu.Lock()
+		o.calls = append([][]byte(nil), s.calls...)
+		s.mu.Unlock()
+		o.lines = e.logs.snapshot()
+		return o
+	}
 
 	type result struct {
 		b   []byte
@@ -356,19 +496,25 @@ func c15XchgCheck(t vh.Fataler, rec *vh.Rec, e *c15Env, c c15XchgCase) {
 		done <- result{append([]byte{}, b...), err}
 	}()
 	var res result
+	var o c15Obs
 	answered, timedOut := false, false
 	timer := time.NewTimer(c15XchgTimeout)
 	defer timer.Stop()
 wait:
 	for {
+		o = observe()
+		switch {
+		case answered && (o.writes == 0 || o.serverFinished(c)):
+			break wait // RequestAndRecv returned and nothing of this case is in flight any more
+		case !answered && o.writes == 0 && c15Has(o.lines, "send: ") != "":
+			break wait // the requester's encoder refused; the error is only logged and RequestAndRecv blocks for ever
+		case !answered && o.serverFinished(c) && o.sent == 0:
+			break wait // the responder is done with the query and will not answer
+		}
 		select {
 		case res = <-done:
 			answered = true
-			break wait
-		case line := <-e.logs.ev:
-			if c15Has([]string{line}, c15NoResponseLogs...) != "" {
-				break wait
-			}
+		case <-c15Sig:
 		case <-timer.C:
 			timedOut = true
 			break wait
@@ -385,11 +531,12 @@ wait:
 	} else if res.err != nil {
 		e.drop(c.Server) // do not reuse a requester after a failed exchange
 	}
-	lines := e.logs.snapshot()
-	s.mu.Lock()
-	calls := s.calls
-	s.calls = nil
-	s.mu.Unlock()
+	if timedOut {
+		s.tainted = true
+		e.drop(c.Server)
+	}
+	o = observe()
+	lines, calls := o.lines, o.calls
 
 	reqCap, respCap := c15ReqCapacity(s.reqDomain), c15RespCapacity(s.reqDomain, c.ReqLen)
 	classes := []string{"domain:" + fmt.Sprint(c15DomainOctets(s.domain)) + "oct"}
@@ -407,15 +554,31 @@ wait:
 		classes = append(classes, "callback-error")
 	}
 	nontriv := answered && res.err == nil
+	summary := fmt.Sprintf("{srv %d req %d resp %d cberr %v: answered=%v err=%v timeout=%v wire: %d written, %d arrived, %d strays, %d sent back; %d callback calls; log=%q}",
+		c.Server, c.ReqLen, c.RespLen, c.CbErr, answered, res.err, timedOut, o.writes, o.arrived, o.strays, o.sent, len(calls), lines)
 	finish := func(outcome string) {
-		rec.Case(nontriv, vh.Digest(c), c, append(classes, outcome)...)
-		c15History = append(c15History, fmt.Sprintf("{srv %d req %d resp %d cberr %v -> %s answered=%v err=%v calls=%d log=%q}", c.Server, c.ReqLen, c.RespLen, c.CbErr, outcome, answered, res.err, len(calls), lines))
+		rec.Case(nontriv && outcome == "ok", vh.Digest(c), c, append(classes, outcome)...)
+		c15History = append(c15History, outcome+" "+summary)
+		if os.Getenv("C15_TRACE") != "" {
+			fmt.Fprintln(os.Stderr, "C15TRACE", outcome, summary)
+		}
 		if len(c15History) > 4 {
 			c15History = c15History[1:]
 		}
 	}
-	desc := fmt.Sprintf("[history: %v] ", c15History) + fmt.Sprintf("base domain %q (%d octets), %d-byte request (reference capacity %d), %d-byte response (reference capacity %d)", s.reqDomain, c15DomainOctets(s.reqDomain), c.ReqLen, reqCap, c.RespLen, respCap)
+	inconclusive := func(why string) {
+		finish("inconclusive:" + why)
+		rec.Note("inconclusive (%s): %s", why, summary)
+	}
+	desc := fmt.Sprintf("base domain %q (%d octets), %d-byte request (reference capacity %d), %d-byte response (reference capacity %d) %s [previous cases: %v]",
+		s.reqDomain, c15DomainOctets(s.reqDomain), c.ReqLen, reqCap, c.RespLen, respCap, summary, c15History)
 
+	// 0. datagrams from anywhere but this requester's socket reached the responder during the case:
+	// log lines and callback calls can then not be attributed to this case
+	if o.strays > 0 {
+		inconclusive("stray-datagram")
+		return
+	}
 	// 1. the callback never sees anything but the requester's payload
 	for _, got := range calls {
 		if !bytes.Equal(got, reqP) {
@@ -424,7 +587,8 @@ wait:
 			return
 		}
 	}
-	// 2. the requester's parser must understand what the responder sent
+	// 2. the requester's parser must understand what the responder sent (the requester's socket is
+	// connected, so only the responder's datagrams reach it)
 	if l := c15Has(lines, "MessageFromWireFormat:"); l != "" {
 		finish("RESPONSE-UNPARSEABLE")
 		rec.Violation(t, "exchange:response-unparseable", c, "%s: the requester could not parse the responder's datagram: %s", desc, l)
@@ -435,43 +599,49 @@ wait:
 		// 3. a successful exchange returns exactly what the callback returned
 		if len(calls) == 0 || c.CbErr || !bytes.Equal(res.b, respP) {
 			finish("RESPONSE-ALTERED")
-			rec.Violation(t, "exchange:response-altered", c, "%s: RequestAndRecv returned %d bytes without error, the callback (called %d times, error=%v) returned %d bytes: %s", desc, len(res.b), len(calls), c.CbErr, len(respP), c15h.FirstDiff(respP, res.b))
+			rec.Violation(t, "exchange:response-altered", c, "%s: RequestAndRecv returned %d bytes without error, the callback (called %d times, refusing=%v) returned %d bytes: %s", desc, len(res.b), len(calls), c.CbErr, len(respP), c15h.FirstDiff(respP, res.b))
 			return
 		}
 		finish("ok")
+	case o.writes == 0:
+		// nothing went on the wire: the requester's encoder refused the request
+		switch {
+		case c15Has(lines, "send: ") != "":
+			finish("req-rejected:name-too-long") // error only logged by the send loop
+		case answered:
+			finish("req-rejected:error") // RequestAndRecv itself returned an error
+		default:
+			inconclusive("nothing-sent-no-error")
+		}
+	case o.arrived == 0:
+		inconclusive("query-never-arrived")
 	case len(calls) == 0:
-		// the request did not reach the callback
-		if l := c15Has(lines, "send: "); l != "" {
-			finish("req-rejected:name-too-long") // requester's encoder refused (error only logged; RequestAndRecv would block for ever)
-			return
+		// the responder read this case's query (and nothing else) but did not hand it to the callback
+		var evidence []string
+		for _, l := range lines {
+			if !strings.Contains(l, c15RefuseText) { // a refusing callback is never a decode failure
+				evidence = append(evidence, l)
+			}
 		}
-		if l := c15Has(lines, c15RequestDecodeLogs...); l != "" {
-			// the requester sent a query (no encoder error) and the responder could not decode it
+		if l := c15Has(evidence, c15RequestDecodeLogs...); l != "" {
 			finish("REQUEST-LOST")
-			rec.Violation(t, "exchange:request-lost", c, "%s: the requester's encoder accepted the request but the responder failed to decode it: %q", desc, l)
+			rec.Violation(t, "exchange:request-lost", c, "%s: the requester's encoder accepted the request and sent it, the responder received it and failed to decode it: %q", desc, l)
 			return
 		}
-		if answered {
-			finish("req-rejected:error") // RequestAndRecv itself returned an error before anything reached the responder
-			return
-		}
-		finish("no_answer_unexplained")
-		rec.Note("inconclusive: %s: no answer, no logged rejection within %v (timed out=%v)", desc, c15XchgTimeout, timedOut)
+		inconclusive("query-arrived-callback-not-called")
 	case c.CbErr:
 		finish("callback-refused")
 	default:
 		// the callback accepted the request and returned a response, but the requester has no result
-		if l := c15Has(lines, c15ResponseRejectLogs...); l != "" {
+		switch {
+		case c15Has(lines, c15ResponseRejectLogs...) != "":
 			finish("resp-rejected:too-large")
-			return
+		case answered && o.sent >= 1:
+			finish("RESPONSE-LOST")
+			rec.Violation(t, "exchange:response-lost", c, "%s: the callback received the request and returned a response, the responder sent its answer without logging a rejection, but RequestAndRecv failed: %v", desc, res.err)
+		default:
+			inconclusive("no-response-no-rejection")
 		}
-		if !answered {
-			finish("no_answer_unexplained")
-			rec.Note("inconclusive: %s: callback ran, no answer and no logged rejection within %v", desc, c15XchgTimeout)
-			return
-		}
-		finish("RESPONSE-LOST")
-		rec.Violation(t, "exchange:response-lost", c, "%s: the callback received the request and returned a response, no stage logged a rejection, but RequestAndRecv failed: %v (log: %q)", desc, res.err, lines)
 	}
 }
 
